@@ -98,6 +98,10 @@ func ownEncoding(m *model.Packet) []byte {
 }
 
 func checkC03(m model.Packet, st styleJSON, prelude ...preOp) (frame []byte, sig, msg string, harness bool) {
+	guard.SetCurrent(func() []byte {
+		return mustJSON(vf.Failure{Property: "C03", Kind: "hang", Case: mustJSON(caseC03{ModelGob: packModel(m), Model: m.String(), Style: st, Prelude: prelude}), Signature: "hang", Message: "a library call made for this case did not return"})
+	})
+	defer guard.SetCurrent(nil)
 	runPrelude(prelude)
 	frame, _ = ref.Encode(&m, st.style())
 	// self-check of the trusted base: the reference decoder must read back
